@@ -47,11 +47,31 @@ package allocators
 // are unexported - so callers need no precondition about it (meta-argument, DESIGN.md 2.9).
 //@ ghost var alloc_ok int
 
+// Abstract view of the allocator behind the interface, as its owner (the plugin that created it
+// and calls it under its own mutex) sees it: the set of outstanding blocks, keyed by the block's
+// base address (4-byte form: the address; 16-byte form: its 128-bit value), and the pool bounds.
+// For each concrete allocator the view is DEFINED by an `abstracts` declaration in package bitmap
+// and its methods are checked against this contract (`refines`).
+//@ ghost field outst(Allocator) Array[bv128]bool
+//@ ghost field poollo(Allocator) bv128
+//@ ghost field poolhi(Allocator) bv128
+//@ ghost field v4pool(Allocator) bool
+//@ pure func blockkey(ip net.IP) bv128 = ite(len(ip) == 4, zext(128, u32be(ip)), u128(ip))
+
 //@ func (Allocator).Allocate
 //@   requires self != nil
-//@   modifies alloc_ok
-//@   ensures ret1 == nil ==> (alloc_ok == old(alloc_ok) + 1 && (len(ret0.IP) == 16 || len(ret0.IP) == 4) && ret0.IP != nil)
-//@   ensures ret1 != nil ==> alloc_ok == old(alloc_ok)
+//@   modifies alloc_ok, outst(self)
+// (alloc_ok counts successful calls: bookkeeping of the call rule, not of the implementations)
+//@   ensures[callsite] (ret1 == nil ==> alloc_ok == old(alloc_ok) + 1) && (ret1 != nil ==> alloc_ok == old(alloc_ok))
+//@   ensures ret1 == nil ==> ((len(ret0.IP) == 16 || len(ret0.IP) == 4) && ret0.IP != nil)
+// C02/C08: a successful allocation is a block of the pool that was not outstanding, and the view
+// grows by exactly that block; a failed one changes nothing
+//@   ensures[C02,C04,C08:fresh-block-of-the-pool] ret1 == nil ==> (!old(outst(self))[blockkey(ret0.IP)] && poollo(self) <= blockkey(ret0.IP) && blockkey(ret0.IP) <= poolhi(self) && \
+//@       (v4pool(self) ==> len(ret0.IP) == 4))
+//@   ensures[C02,C04,C08:view-grows-by-that-block] forall key bv128: outst(self)[key] == (old(outst(self))[key] || (ret1 == nil && key == blockkey(ret0.IP)))
+// C07 at the interface (IPv4 pools): a hint naming a block of the pool that is not outstanding is honoured
+//@   ensures[C02,C07:hint-honoured-v4] (v4pool(self) && isv4(hint.IP) && poollo(self) <= zext(128, v4of(hint.IP)) && zext(128, v4of(hint.IP)) <= poolhi(self) && \
+//@       !old(outst(self))[zext(128, v4of(hint.IP))]) ==> (ret1 == nil && blockkey(ret0.IP) == zext(128, v4of(hint.IP)))
 
 //@ func (Allocator).Free
 //@   requires self != nil
